@@ -126,9 +126,15 @@ def stated_count(ctx):
     f = P.func('headers.HeaderwordInfo.get_header_dict')
     asserts = [n for n in ast.walk(f.node) if isinstance(n, ast.Assert)]
     ok = False
+    from .. import wiring as WR
+    cnt = WR.count_expr_text(P)
+    if cnt is None:
+        raise AnalysisError('get_header_dict: the expression counting the located arrays was not recognised')
     for a in asserts:
-        t = U(a.test)
-        if 'len(stored_header_keys)' in t and 'n_header_arrays' in t and '==' in t:
+        t = a.test
+        sides = {U(t.left), U(t.comparators[0])} if isinstance(t, ast.Compare) and len(t.ops) == 1 and \
+            isinstance(t.ops[0], ast.Eq) else set()
+        if cnt in sides and (sides - {cnt}) and (sides - {cnt}).pop() in f.params:
             ok = True
             # it must follow the loop that creates the offsets and precede the return
             rets = [r for r in ast.walk(f.node) if isinstance(r, ast.Return)]
